@@ -113,7 +113,7 @@ def loopFuel (k : Nat) (s : List Bool) : Nat := (k + 1) * (s.length + 2)
 
 /-- `_randbelow(sectype, n, bits=True)` for a secure integer / fixed-point type (the finite-field special
 case `n == field.order` of random.py:58-60 is not modelled).
-`n = 0` (reachable through `uniform(a, a)`): Python has `b = -1`, `k = (-1).bit_length() = 1`,
+`n = 0` (not reachable through the public functions): Python has `b = -1`, `k = (-1).bit_length() = 1`,
 `n & b = 0`, i.e. the power-of-two fast path with k = 1. -/
 def randbelowBits (n : Nat) (s : List Bool) : Res (List Bool) :=
   if n = 0 then getrandbitsBits 1 s
@@ -225,7 +225,8 @@ def accumulate : List Int → List Int
 def gcdList (l : List Int) : Nat := l.foldl (fun g a => Nat.gcd g a.natAbs) 0
 
 /-- one weighted choice (random.py:215-221): `r = _randbelow(cum[-1]); h = [r < a for a in cum[:-1]];
-u = vector_sub(h + [1], [0] + h); s = Σ u[i] * population[i]` -/
+u = vector_sub(h + [1], [0] + h) if h else [sectype(1)]; s = Σ u[i] * population[i]`
+(for `h = []` the general formula gives the same `[1]`) -/
 def weightedPick (population cum : List Int) (r : Nat) : Int :=
   let h := cum.dropLast.map (fun a => if (r : Int) < a then (1 : Int) else 0)
   let u := vectorSub (h ++ [1]) (0 :: h)
@@ -248,10 +249,7 @@ def choicesWeighted (population cumWeights : List Int) (k : Nat) (s : List Bool)
     if g = 0 then .error "ZeroDivisionError"
     else
       let cum := cumWeights.map (· / (g : Int))
-      -- total weight 1: `_randbelow(sectype, 1)` is the plain int 0, `h` a list of Python bools and
-      -- `runtime.vector_sub(h + [1], [0] + h)` raises AttributeError (no secure operand), random.py:217
-      if cum.getLastD 0 = 1 ∧ k ≠ 0 then .error "AttributeError"
-      else choicesWeightedLoop population cum k s
+      choicesWeightedLoop population cum k s
 
 /-! ### shuffle, random_permutation, sample (sequence case)  ≙ random.py:225-266, 325-335 -/
 
@@ -340,9 +338,10 @@ def random (f : Nat) (s : List Bool) : Res Nat :=
   if f = 0 then .error "TypeError" else getrandbits f s
 
 /-- `uniform(sectype, a, b)` on scaled integers: `A = a·2^f` (as converted by the secure type),
-`n = round(abs(a - b) * 2**f)`, `sgn = copysign(1, b - a)`; result numerator `A + r·sgn` -/
+`n = round(abs(a - b) * 2**f)`, `sgn = copysign(1, b - a)`; `r = _randbelow(sectype, max(1, n))`,
+result numerator `A + r·sgn` -/
 def uniform (f : Nat) (A : Int) (n : Nat) (sgn : Int) (s : List Bool) : Res Int :=
-  if f = 0 then .error "TypeError" else (randbelow n s).map (fun (r : Nat) => A + (r : Int) * sgn)
+  if f = 0 then .error "TypeError" else (randbelow (max 1 n) s).map (fun (r : Nat) => A + (r : Int) * sgn)
 
 /-! ### runtime.random_bits, value layer  ≙ runtime.py:4142-4184 (prime fields, p odd) -/
 
